@@ -303,8 +303,9 @@ NEWTYPE_MAX = {
 
 class Interp(object):
     STEP_BUDGET = 150000
+    SPLIT_ANY_INDEX = True      # a symbolic index with at most 16 values into any non-uniform array splits the state
     SMALL_ENUM = 4              # field-less enums up to this many variants are split by variant when copied while unknown
-    TIME_BUDGET = 10.0          # seconds per run; exceeding it ends the remaining paths as 'lost' (fail closed)
+    TIME_BUDGET = 30.0          # CPU seconds per run; exceeding it ends the remaining paths as 'lost' (fail closed)
     MAX_DEPTH = 40
 
     def __init__(self, facts, abstract_methods=None, opaque_calls=None, assume_invariants=True, observe=False):
@@ -476,7 +477,8 @@ class Interp(object):
                 vi = vs_of(idx.term, st.cons)
                 if not vi.single() and not vi.empty() and vi.lo >= 0 and vi.hi - vi.lo < 64:
                     base = self._get_path(st, f.locals.get(local, Un(None, 'uninit')), path)
-                    if isinstance(base, Ar) and is_ground(base) and not all(val_eq(e, base.elems[0]) for e in base.elems):
+                    if isinstance(base, Ar) and ((is_ground(base) and not all(val_eq(e, base.elems[0]) for e in base.elems))
+                                                 or (self.SPLIT_ANY_INDEX and vi.hi - vi.lo < 16 and not is_ground(base))):
                         raise SplitTerm(idx.term, sorted(vi.s) if vi.s is not None else list(range(vi.lo, vi.hi + 1)))
                 path.append(('i', idx.term))
                 variant = None
@@ -903,16 +905,20 @@ class Interp(object):
         self.push(st, key, args, subst, None, None)
         work = [st]
         import time as _time
-        t_end = _time.time() + self.TIME_BUDGET
+        t_end = _time.process_time() + self.TIME_BUDGET       # CPU time: the verdict must not depend on the load of the machine
         budget0 = self.total_steps
         while work:
             s = work.pop()
             try:
                 work.extend(self.step(s))
+            except SplitTerm as sp:      # raised below statement level (operand of a modelled call, ...): same treatment
+                work.extend(self.split_term(s, sp))
+            except Fork as fk:
+                work.extend(self.fork_enum(s, s.top(), fk))
             except Lost as e:
                 self.outcomes.append(Outcome('lost', None, s, self.cur_site(s), str(e)))
             self.total_steps += 1
-            if self.total_steps - budget0 > self.STEP_BUDGET or (self.total_steps & 255 == 0 and _time.time() > t_end):
+            if self.total_steps - budget0 > self.STEP_BUDGET or (self.total_steps & 255 == 0 and _time.process_time() > t_end):
                 for s2 in work:
                     self.outcomes.append(Outcome('lost', None, s2, None, 'step budget exhausted'))
                 self.outcomes.append(Outcome('lost', None, s, None, 'step budget exhausted'))
